@@ -48,9 +48,13 @@ def alpha_raw(p, exact=True):
     names = tuple(p.names)
     t = {}
     for key in raw.dtype.names:
-        exps = [ord(ch) - KEY_OFFSET for ch in key]
+        try:
+            exps = [ord(ch) - KEY_OFFSET for ch in key]
+        except SystemError:
+            # numpy.str_ keys may hold code units beyond the Unicode range (exponents > 0x10FFFF with >= 2 names)
+            exps = [int(x) - KEY_OFFSET for x in numpy.array([key]).view(numpy.uint32)]
         if len(exps) != len(names):
-            raise AssertionError(f"key {key!r} has {len(exps)} characters for names {names}")
+            raise AssertionError(f"key has {len(exps)} characters for names {names}")
         c = raw[key]
         _acc(t, _mono(names, exps), exact_array(c) if exact else numpy.array(c))
     return V(t, tuple(raw.shape))
@@ -144,7 +148,7 @@ def model_of(sp, exact=True):
     return V(t, shape)
 
 
-VARIANTS = ("canon", "T", "F", "slice", "zeroterm", "unsorted", "bigalloc", "unusedname", "rev", "readonly")
+VARIANTS = ("canon", "T", "F", "slice", "zeroterm", "unsorted", "bigalloc", "unusedname", "rev", "readonly", "view")
 
 
 def build(sp):
@@ -153,9 +157,15 @@ def build(sp):
     shape = tuple(sp["s"])
     dtype = numpy.dtype(sp["d"])
     variant = sp.get("v", "canon")
+    # "content+layout" composes a content variant (zeroterm / unsorted / unusedname / bigalloc) with a layout variant
+    # (T / F / slice / rev / readonly); a single word is either of them
+    content, _, layout = variant.partition("+")
+    if not layout and content in ("T", "F", "slice", "rev", "readonly", "view"):
+        content, layout = "canon", content
     terms = [(tuple(e), numpy.array([dec_num(x) for x in c]).astype(dtype).reshape(shape)) for e, c in sp["t"]]
     if not terms:
         terms = [((0,) * len(names), numpy.zeros(shape, dtype))]
+    variant = content
     if variant == "zeroterm":
         used = {e for e, _ in terms}
         extra = tuple([3] + [0] * (len(names) - 1))
@@ -172,6 +182,7 @@ def build(sp):
     kw = {}
     if variant == "bigalloc":
         kw["allocation"] = len(exps)  # the only other value ndpoly accepts consistently
+    variant = layout or "canon"
     if variant == "T" and len(shape) >= 2:
         p = numpoly.ndpoly(exponents=exps, shape=shape[::-1], names=names, dtype=dtype, **kw)
         raw = raw_view(p)
@@ -208,6 +219,9 @@ def build(sp):
         out = p
         if variant == "readonly":
             numpy.ndarray.setflags(out, write=False)
+        elif variant == "view":
+            # same shape and strides, but the object does not own its data
+            out = numpy.ndarray.__getitem__(p, Ellipsis) if shape else numpy.ndarray.view(p)
     assert type(out) is numpoly.ndpoly and tuple(out.shape) == shape, (type(out), out.shape, shape)
     return out
 
